@@ -451,6 +451,8 @@ def build_nn(interp, torch):
         if tensor is not None and not isinstance(tensor, Tensor):
             raise RaiseEx(TypeError('cannot assign non-tensor as buffer'))
         a['_buffers'][name] = tensor
+        if not it.py_truth(persistent):
+            a.setdefault('_non_persistent', set()).add(name)
 
     def m_register_parameter(it, self, name, p):
         self.attrs['_parameters'][name] = p
@@ -516,13 +518,61 @@ def build_nn(interp, torch):
             m = mm
         return m
 
-    def m_state_dict(it, self, *a, **k):
-        d = {}
-        for n, p in named_parameters(it, self):
-            d[n] = p
-        for n, p in named_buffers(it, self):
-            d[n] = p
-        return d
+    def _state_entries(self, prefix=''):
+        """(key, owner dict, local name) in torch order: per module its parameters then its buffers, then the children - a module or
+        tensor reachable under two names appears under both (torch does not deduplicate state_dict keys)"""
+        out = []
+        a = self.attrs
+        for n, p in a.get('_parameters', {}).items():
+            if p is not None:
+                out.append((prefix + n, a['_parameters'], n))
+        for n, b in a.get('_buffers', {}).items():
+            if b is not None and n not in a.get('_non_persistent', ()):
+                out.append((prefix + n, a['_buffers'], n))
+        for n, c in a.get('_modules', {}).items():
+            if c is not None:
+                out.extend(_state_entries(c, prefix + n + '.'))
+        return out
+
+    def m_state_dict(it, self, *a, prefix='', **k):
+        return {key: owner[n] for key, owner, n in _state_entries(self, prefix)}
+
+    class LoadResult:
+        """torch.nn.modules.module._IncompatibleKeys"""
+        def __init__(self, missing, unexpected):
+            self.missing_keys, self.unexpected_keys = missing, unexpected
+
+        def __iter__(self):
+            return iter((self.missing_keys, self.unexpected_keys))
+
+    def m_load_state_dict(it, self, state_dict, strict=True, assign=False):
+        if assign:
+            raise Unsupported('load_state_dict(assign=True)')
+        sd = dict(state_dict)
+        seen = set()
+        missing, errors = [], []
+        for key, owner, n in _state_entries(self):
+            if key not in sd:
+                missing.append(key)
+                continue
+            seen.add(key)
+            src, dst = sd[key], owner[n]
+            if not isinstance(src, Tensor):
+                errors.append(f'While copying the parameter named "{key}", expected torch.Tensor')
+                continue
+            if tuple(src.shape) != tuple(dst.shape):
+                errors.append(f'size mismatch for {key}: copying a param with shape {src.shape} from checkpoint, the shape in current model is {dst.shape}.')
+                continue
+            dst.els = list(src.els)
+        unexpected = [k_ for k_ in sd if k_ not in seen]
+        if it.py_truth(strict):
+            if unexpected:
+                errors.insert(0, 'Unexpected key(s) in state_dict: ' + ', '.join(f'"{k_}"' for k_ in unexpected))
+            if missing:
+                errors.insert(0, 'Missing key(s) in state_dict: ' + ', '.join(f'"{k_}"' for k_ in missing))
+        if errors:
+            raise RaiseEx(RuntimeError('Error(s) in loading state_dict:\n\t' + '\n\t'.join(errors)))
+        return LoadResult(missing, unexpected)
 
     MODULE = S('nn.Module', {
         '__init__': m_init, '__setattr__': m_setattr, '__delattr__': m_delattr, 'register_buffer': m_register_buffer,
@@ -536,7 +586,7 @@ def build_nn(interp, torch):
         'named_buffers': named_buffers,
         'buffers': lambda it, s, recurse=True: iter([p for _, p in named_buffers(it, s, recurse=recurse)]),
         'train': m_train, 'eval': lambda it, s: m_train(it, s, False), '__call__': m_call,
-        'get_submodule': m_get_submodule, 'state_dict': m_state_dict,
+        'get_submodule': m_get_submodule, 'state_dict': m_state_dict, 'load_state_dict': m_load_state_dict,
         'to': lambda it, s, *a, **k: s, 'cuda': lambda it, s, *a, **k: s, 'cpu': lambda it, s: s,
         'float': lambda it, s: s, 'double': lambda it, s: s,
         'requires_grad_': lambda it, s, v=True: ([setattr(p, 'requires_grad', v) for _, p in named_parameters(it, s)], s)[1],
